@@ -129,7 +129,9 @@ def run_tlc(module, cfg=None, *, workers=1, env=None, simulate=None, depth=None,
     """Run TLC on spec/<module>.tla with spec/<cfg or module>.cfg. Returns TLCResult."""
     wd = workdir or make_workdir('tlc')
     meta = os.path.join(wd, f'meta-{module}-{random.getrandbits(40):x}')
-    cmd = ['java', f'-Xmx{heap}', '-XX:+UseParallelGC', f'-DTLA-Library={SPEC}']
+    # single-worker runs (trace-validation shards: up to 16 JVMs side by side) use the serial collector
+    gc = ['-XX:+UseSerialGC'] if int(workers) == 1 else ['-XX:+UseParallelGC', f'-XX:ParallelGCThreads={max(2, min(8, int(workers)))}']
+    cmd = ['java', f'-Xmx{heap}', '-Xss16m'] + gc + [f'-DTLA-Library={SPEC}']
     if deque:
         cmd.append('-Dtlc2.tool.queue.IStateQueue=StateDeque')
     cmd += ['-cp', TLAJAR, 'tlc2.TLC', '-workers', str(workers), '-metadir', meta, '-noGenerateSpecTE']
